@@ -87,6 +87,7 @@ func (c02) Gen(r *rand.Rand, tier string, idx int) *core.Plan {
 	w["vRevocation"] = healthy(3, 50)
 	w["callErr"] = healthy(2, 90)
 	w["crit"] = healthy(3, 50)
+	w["warm"] = int64(core.Pick(r, 0, 0, 0, 1, 2, 3))
 	if w["crit"] != 0 && r.IntN(2) == 0 {
 		w["critKey"] = int64(1 + r.IntN(len(c02CritKeys)-1))
 	}
@@ -291,8 +292,8 @@ func (l c02) Exec(env *core.Env) *core.Result {
 		if plug != 0 && minVersionInvalid {
 			pluginProblem = true // the signed minimum version is no semantic version
 		}
-		situation := fmt.Sprintf("anchor=%d identity=%d expiry=%d certTime=%d revocation=%d plugin=%d verdicts=%d/%d callErr=%d crit=%d/%d scheme=%d fmt=%d legacy=%d bits=%d pver=%d prelude=%d entry=%d minver=%d",
-			w["anchor"], w["identity"], w["expiry"], w["certTime"], w["revocation"], plug, w["vIdentity"], w["vRevocation"], w["callErr"], w["crit"], w["critKey"], w["scheme"], w["format"], w["legacy"], w["bits"], w["pver"], w["prelude"], w["entry"], w["minver"])
+		situation := fmt.Sprintf("anchor=%d identity=%d expiry=%d certTime=%d revocation=%d plugin=%d verdicts=%d/%d callErr=%d crit=%d/%d scheme=%d fmt=%d legacy=%d bits=%d pver=%d prelude=%d entry=%d minver=%d warm=%d",
+			w["anchor"], w["identity"], w["expiry"], w["certTime"], w["revocation"], plug, w["vIdentity"], w["vRevocation"], w["callErr"], w["crit"], w["critKey"], w["scheme"], w["format"], w["legacy"], w["bits"], w["pver"], w["prelude"], w["entry"], w["minver"], w["warm"])
 		accepted := map[string]bool{}
 		for base := int64(0); base < 3; base++ {
 			levelName, override, enf := levelFromKnobs(base, w["bits"])
@@ -304,10 +305,35 @@ func (l c02) Exec(env *core.Env) *core.Result {
 					listedStores[0], listedStores[1] = listedStores[1], listedStores[0]
 				}
 			}
-			v, err := buildVerifier(vcfg{level: levelName, override: override, stores: listedStores, identities: identities, store: store, validator: val, legacy: w["legacy"] == 1, mgr: mgr, ctor: w["ctor"]})
+			// the documents of the verifier hold, next to the statement under study, the other two base levels with
+			// the same overrides, scoped to other repositories
+			var siblings []vSibling
+			if w["warm"] != 0 {
+				for b2 := int64(0); b2 < 3; b2++ {
+					if b2 != base {
+						ln, ov, _ := levelFromKnobs(b2, w["bits"])
+						siblings = append(siblings, vSibling{ln, ov})
+					}
+				}
+			}
+			v, err := buildVerifier(vcfg{level: levelName, override: override, stores: listedStores, identities: identities, store: store, validator: val, legacy: w["legacy"] == 1, mgr: mgr, ctor: w["ctor"], siblings: siblings})
 			if err != nil {
 				res.Violate("HARNESS/verifier", "", "%v", err)
 				return
+			}
+			if w["warm"] != 0 {
+				// ... and the long-lived verifier has just verified this very signature for one (or both) of those
+				// repositories, under their levels. What is judged afterwards is the same as without that history.
+				for k := range siblings {
+					if w["warm"] == 3 || int64(k+1) == w["warm"] {
+						verifySibling(ctx, v, entryOf(w), k, desc, sig, so.MediaType)
+					}
+				}
+				val.Calls, val.Legacy = nil, 0
+				if sp != nil {
+					sp.Requests, sp.MetaCalls = nil, 0
+				}
+				res.Probe("verified_before_under_another_statement_of_the_same_verifier")
 			}
 			if sm != nil && w["prelude"] != 0 {
 				// the verifier is long-lived: before the verification that is judged it has already verified this
